@@ -160,6 +160,28 @@ func init() {
 			},
 		},
 		propCheck{
+			ID: "C39", Level: "exploration",
+			Rule: "one evaluation = one simulated history of 4-30 administrative statements by root (CREATE USER / ROLE, GRANT and REVOKE of 10 privilege kinds or ALL at the global, database, table and routine level, to users and roles, GRANT / REVOKE role, DROP USER / ROLE) over 3 users and 2 roles; after every statement every user's allow/deny outcome over 8 effect-free probe statements (SELECT/INSERT/UPDATE/DELETE on three tables, CALL) is taken from a long-lived session (privilege cache) and from a fresh session and compared with a privilege model (own grants united with the grants of every granted role, global or database or object level); in 2/3 of the steps one user also runs one statement with an effect (INSERT, UPDATE, DELETE, INSERT..SELECT, REPLACE, CREATE/DROP/ALTER TABLE, CREATE INDEX, CREATE USER): allowed iff the model holds every required privilege, allowed => the state changed, denied => the state read by root is unchanged; distinct = distinct hash of the statement-kind/outcome sequence",
+			Real: []string{"planbuilder authorization (HandleAuth), plan.Grant / Revoke / CreateUser / DropUser / roles execution", "mysql_db.MySQLDb, PrivilegeSet, role edges, per-session privilege cache (update counter)", "engine + memory backend"},
+			Stub: []string{"session scheduling at statement granularity (sessions of different users interleave between statements)", "persister (in-memory, fault-free in this check)"},
+			Assumptions: []string{"SET ROLE is not implemented by the engine (every granted role is active, as documented in UserActivePrivilegeSet), so role activation is not generated", "column-level grants and privilege kinds outside the 10 generated ones are not covered", "statements whose required privileges differ between MySQL versions (UPDATE .. WHERE reading columns, TRUNCATE) are not generated"},
+			Subs: []subCheck{
+				{ID: "C39", World: "sqlsim", Quick: 2400, Thorough: 150000, QuickCap: 90, ThoroughCap: 1500, GC: "100",
+					Probes: []string{"effect-allowed", "effect-denied"}},
+			},
+		},
+		propCheck{
+			ID: "C41", Level: "exploration",
+			Rule: "one evaluation = one simulated history of 4-30 administrative statements (as in C39, incl. routine-level and ALL grants) against an engine whose persister is a simulated disk with atomic-replace semantics; each Persist call is hit with probability 1/2 by: an I/O error (nothing replaced), a crash before the replace, a crash right after it; after a crash the engine is discarded and a fresh engine loads the durable blob; after half of the acknowledged statements a second fresh engine loads the durable blob and is compared with the live one: identical SHOW GRANTS for every account and identical allow/deny matrix for every user; after a crash the restarted engine must equal the last durable state (crash before) or the old or new state (crash after); after a failed Persist the durable blob is unchanged and the live engine is in the old or the new state, never a mixture; distinct = distinct hash of the statement-kind/fault/outcome sequence",
+			Real: []string{"mysql_db serialization (flatbuffers) and LoadData", "mysql_db.MySQLDb editor / Persist path of every account statement", "SHOW GRANTS, authorization of the probe statements"},
+			Stub: []string{"disk (simDisk: atomic replace, injected error / crash-before / crash-after)", "process restart = new engine + LoadData of the durable bytes"},
+			Assumptions: []string{"the integrator's persister replaces the blob atomically (the interface hands over one complete blob per call)", "the order of roles inside one GRANT line of SHOW GRANTS is presentation, not state", "the root superuser is ephemeral and re-added by the integrator after a restart"},
+			Subs: []subCheck{
+				{ID: "C41", World: "sqlsim", Quick: 2400, Thorough: 150000, QuickCap: 90, ThoroughCap: 1500, GC: "100",
+					Probes: []string{"live-state-ahead-of-durable"}},
+			},
+		},
+		propCheck{
 			ID: "C44", Level: "exploration",
 			Rule: "one evaluation = one simulated multi-session history over 13 representative system variables (bool, bounded int, double, enum; both-scope, global-only, read-only) and 3 user variables: SET [SESSION|GLOBAL|default] with valid, boundary, out-of-range and wrong-type values, wrong scopes and read-only variables; SET @u = NULL / int / string / expression; sessions connect (inherit the current globals) and disconnect; after every step the touched variable is read in every scope of every session, and periodically everything is, against a model (global store + per-session store initialised from the globals + per-session user variables); non-trivial = >= 2 sessions; distinct = distinct hash of the action/outcome sequence",
 			Real: []string{"SET / SELECT @@ planning and execution", "sql.SystemVariables global registry, BaseSession system and user variable stores, system variable types' Convert"},
